@@ -1,1 +1,3 @@
-pub fn hello() {}
+pub mod engine;
+pub mod props;
+pub mod tables;
